@@ -197,8 +197,16 @@ pub fn main(args: &[String]) -> i32 {
     let mut cur_val: HashMap<usize, Vec<u8>> = HashMap::new();
     let sizes = [20usize, 300, 3000, 4000, 4100, 7000, 8300];
     let edge_pct: u32 = o.num("edges", 25u32);
+    // `--exact 1`: the boundary sizes are those of THIS format's header, mostly the exact fit
+    let exact_own = o.num("exact", 0u32) == 1;
     let readcheck = o.num("readcheck", 0u32) == 1;
     let trickle_ms: u64 = o.num("trickle", 0u64);
+    // threads (application and background alike) are held for a while at scheduling points now and then: a
+    // paused VM, a debugger, CPU starvation.  The store has to pick up where it left off.
+    let stall_mask: u64 = o.num("stallmask", 0u64);
+    if stall_mask > 0 {
+        feoxdb::verif::sched::set_random_stall(stall_mask, o.num("stallus", 250_000u64));
+    }
     let foldzero_pct: u32 = o.num("foldzero", 4u32);
     let wide: usize = o.num("wide", 0);
     let wide_every: usize = o.num("wideevery", 12usize).max(2);
@@ -281,9 +289,10 @@ pub fn main(args: &[String]) -> i32 {
                 if edge_pct > 0 && rng.random_range(0..100) < edge_pct && key.len() < 1000 {
                     // record sizes at a block boundary, for the header of this AND of the other formats
                     // (v1: 22 bytes + key, v2/v3: 30 bytes + key): exact fit, one short, one over
-                    let header = [22usize, 30][rng.random_range(0..2)] + key.len();
+                    let own = if fmt == 1 { 22usize } else { 30 };
+                    let header = if exact_own { own } else { [22usize, 30][rng.random_range(0..2)] } + key.len();
                     let k = rng.random_range(1..4usize);
-                    let d = [-9i64, -8, -7, -1, 0, 0, 1][rng.random_range(0..7)];
+                    let d = if exact_own { [0i64, 0, 0, 0, -1, 1][rng.random_range(0..6)] } else { [-9i64, -8, -7, -1, 0, 0, 1][rng.random_range(0..7)] };
                     n = ((k * 4096) as i64 + d - header as i64).max(1) as usize;
                 }
                 let mut v = vec![b'a' + (step % 26) as u8; n];
